@@ -62,6 +62,18 @@ def poison_on_error(ctx, fn, b, rule, label):
     return ctx.ob(rule, fn, inst, False, "cannot find how the result of `%s` is consumed (unrecognised idiom; chain=%s)" % (A.cname(t), rf.chain), fn.loc(b))
 
 
+def ok_return_blocks(fn):
+    """blocks that assign `_0 = Result::Ok(..)`"""
+    out = []
+    for b, blk in enumerate(fn.blocks):
+        if blk["cleanup"]:
+            continue
+        for st in blk["s"]:
+            if st["p"]["l"] == 0 and not st["p"]["p"] and st["rv"]["k"] == "agg" and st["rv"].get("variant") == "Ok":
+                out.append(b)
+    return out
+
+
 def run(ctx):
     F = ctx.F
     entries = R.write_entries(ctx)
@@ -255,3 +267,35 @@ def run(ctx):
                        "result of %s is %s" % (A.cname(t), "discarded (%s)" % ",".join(rf.chain) if rf.swallowed else "consumed (%s)" % ("propagated" if rf.returned else "matched/handled")),
                        fn.loc(b), nontrivial=False)
     ctx.floor("R-C13.5", "append/persist call sites crate-wide", n, 14)
+
+    # ---- R-C13.6 inside the journal writer a failed write/flush/sync is reported, never retried or swallowed:
+    # the poison discipline of R-C13.1 only sees an Err that actually comes out of Writer::{write_*,persist}
+    n = 0
+    for fid, fn in sorted(F.fns.items()):
+        if not (fid.startswith("journal::writer::Writer::") or fid in (R.JOURNAL_PERSIST,)) or fn.kind == "closure":
+            continue
+        for b, t in fn.calls():
+            if t["dest"]["p"] or not fn.local_ty(t["dest"]["l"]).startswith("std::result::Result<"):
+                continue
+            name = A.cname(t)
+            if A.is_transparent(name) or name.endswith(("::branch", "::from_residual")) or any(name.endswith(s) for s in A.ERR_ADAPTERS + A.OK_ADAPTERS):
+                continue
+            n += 1
+            ctx.count_sites()
+            rf = A.result_flow(fn, b)
+            inst = "io-result-%s#%d" % (name.rsplit("::", 1)[-1].split("<")[0], sum(1 for bb, tt in fn.calls() if bb < b and A.cname(tt) == name) + 1)
+            if rf.swallowed or rf.panics:
+                ctx.ob("R-C13.6", fn, inst, False, "result of %s is %s: a journal I/O failure does not surface" % (name, "discarded" if rf.swallowed else "unwrapped"), fn.loc(b))
+                continue
+            if rf.err_blocks:
+                defs, retry = A.err_edge_defs_of_return(fn, b, rf.err_blocks, ctx.og(fn))
+                bad = [d for d in defs if d[0] != "err"]
+                ok = not retry and not bad and bool(defs)
+                ctx.ob("R-C13.6", fn, inst, ok, "on the Err edge of %s the function returns the error (%s)" % (name, "; ".join(sorted({d[2] for d in defs}))[:80]) if ok else
+                       "the Err arm of %s %s: the failure of a journal %s is hidden from the caller, nothing poisons, and later writes are acknowledged on top of a journal whose state is unknown" % (
+                           name, "loops back to the call (retry)" if retry else "can end in a non-error return (%s)" % "; ".join(d[2] for d in bad)[:100], name.rsplit("::", 1)[-1]), fn.loc(b), nontrivial=not ok or not rf.returned)
+                continue
+            ok = rf.returned and not rf.unknown
+            ctx.ob("R-C13.6", fn, inst, ok, "result of %s is returned to the caller%s" % (name, " through %s" % ",".join(h[0] for h in rf.handlers) if rf.handlers else "") if ok
+                   else "cannot see how the result of %s reaches the caller (chain %s)" % (name, rf.chain), fn.loc(b), nontrivial=ok is False)
+    ctx.floor("R-C13.6", "Result-returning calls inside the journal writer", n, 36)
